@@ -142,6 +142,8 @@ def attribute(tokeniser: 'Tokeniser') -> GenericAttribute:
         code_int: int = int(code, 16)
     except ValueError:
         raise ValueError(f"'{code}' is not a valid attribute code\n  Must be hexadecimal (e.g., 0x01)") from None
+    if not 0 <= code_int <= _SIZE_B:
+        raise ValueError(f"'{code}' is not a valid attribute code\n  The type code is one octet (0x00 to 0xff)")
 
     flag = tokeniser().lower()
     if not flag.startswith('0x'):
@@ -150,6 +152,8 @@ def attribute(tokeniser: 'Tokeniser') -> GenericAttribute:
         flag_int: int = int(flag, 16)
     except ValueError:
         raise ValueError(f"'{flag}' is not a valid attribute flag\n  Must be hexadecimal (e.g., 0x40)") from None
+    if not 0 <= flag_int <= _SIZE_B:
+        raise ValueError(f"'{flag}' is not a valid attribute flag\n  The flags are one octet (0x00 to 0xff)")
 
     data = tokeniser().lower()
     if not data.startswith('0x'):
@@ -157,6 +161,10 @@ def attribute(tokeniser: 'Tokeniser') -> GenericAttribute:
     if len(data) % 2:
         raise ValueError(f"'{data}' has invalid length\n  Hexadecimal data must have even number of digits")
     data_bytes: bytes = b''.join(bytes([int(data[_ : _ + 2], 16)]) for _ in range(2, len(data), 2))
+    if len(data_bytes) > _SIZE_H:
+        raise ValueError(
+            f'attribute data is too long ({len(data_bytes)} octets)\n  The attribute length field is two octets (at most {_SIZE_H})'
+        )
 
     end = tokeniser()
     if end != ']':
